@@ -12,8 +12,9 @@ that every logged index is in bounds on the documented domain) and returns the l
  spec  failure: the implementation indexed an array outside its bounds (index >= size, or a negative index
                 that is not a literal of the source line - the missing value -1 used as an index wraps
                 silently), raised on a valid input, or modified an input array
- model failure: the set of cells touched per array differs from the model's log (order and multiplicity
-                are not compared), the results differ, or the model's own log is out of bounds on a
+ model failure: the set of cells touched per ARGUMENT array differs from the model's log (order and multiplicity
+                are not compared; arrays the kernel allocates itself are bounds-checked but not compared - a
+                rewrite may add or rename work arrays), the results differ, or the model's own log is out of bounds on a
                 well-formed input (would contradict the theorems)
 """
 import linecache
@@ -191,22 +192,24 @@ def wf(ds):
     return all(0 <= d <= n and (d == n or ds[d] != n) for d in ds)
 
 
-def cmp_logs(ans, touched, arrays, n_extra_ok=()):
-    """index SETS per array; returns list of differences"""
+def cmp_logs(ans, touched, arrays, argnames):
+    """index SETS per ARGUMENT array; returns list of differences.
+
+    Arrays the kernel allocates itself (work arrays, the result) are the implementation's own business: a rewrite may
+    add, drop or rename them at will, so their logs are not part of the tie (they are still bounds-checked: every
+    recorded access of every array, argument or not, goes through `_rec`)."""
     diffs = []
     for a in arrays:
+        if a not in argnames:
+            continue
         m = set(ans.get("log." + a, []))
         i = touched.get(a, set())
         if m != i:
             diffs.append(f"{a}: only model {sorted(m - i)[:8]}, only implementation {sorted(i - m)[:8]}")
-    known = set(arrays) | set(n_extra_ok)
-    for a in touched:
-        if a not in known:
-            diffs.append(f"implementation indexed an array the model does not know: {a} at {sorted(touched[a])[:8]}")
     return diffs
 
 
-def make_judge(kernel, arrays, st, res_canon, touched, oob, mutated, wellformed, extra_ok=(), expect_res=True):
+def make_judge(kernel, arrays, st, res_canon, touched, oob, mutated, wellformed, argnames=(), expect_res=True):
     def judge(answers):
         ans = answers[0]
         fs = []
@@ -224,7 +227,7 @@ def make_judge(kernel, arrays, st, res_canon, touched, oob, mutated, wellformed,
         if st == "ok":
             if expect_res and ans["model"] != res_canon:
                 fs.append({"kind": "model", "what": f"{kernel}: result differs: model {ans['model'][:12]} implementation {res_canon[:12]}"})
-            d = cmp_logs(ans, touched, arrays, extra_ok)
+            d = cmp_logs(ans, touched, arrays, argnames)
             if d and not oob:
                 fs.append({"kind": "model", "what": f"{kernel}: touched cells differ: " + " | ".join(d[:3])})
         return fs
@@ -270,7 +273,8 @@ def run(ctx):
             rc = canon(res) if st == "ok" else res
             desc = {"op": kernel, "world": world, **(extra_desc or {})}
             ctx.count("c13b:" + kernel)
-            ctx.add(desc, [(op, margs)], make_judge(kernel, arrays, st, rc, touched, oob, mutated, True, extra_ok, expect_res),
+            argnames = {getattr(a, "_pfname", None) for _, a in inputs}
+            ctx.add(desc, [(op, margs)], make_judge(kernel, arrays, st, rc, touched, oob, mutated, True, argnames, expect_res),
                     nontrivial=nontriv)
 
         # --- rank / loop_indices / pit_indices / upstream_count ---------------------------------------
